@@ -213,10 +213,28 @@ func (c *conn) ExecContext(ctx context.Context, query string, args []driver.Name
 	}
 	if m := reSetval.FindStringSubmatch(q); m != nil {
 		seq, bucket, table, ledgerName := m[1], m[2], m[3], m[4]
+		unscopedOwner := ""
+		defer func() {
+			if ledgerName == "" && unscopedOwner != "" {
+				u := UnscopedRead{Task: taskKeyOf(ctx), Ledger: unscopedOwner, Bucket: bucket, Refs: 1, SQL: q, Tables: []string{table}, Event: c.w.eventNow()}
+				c.w.mu.Lock()
+				c.w.unscoped = append(c.w.unscoped, u)
+				c.w.mu.Unlock()
+			}
+		}()
 		err := c.sess.stmt(taskKeyOf(ctx), func() error {
 			var ledgers []string
 			if ledgerName == "" {
-				// no ledger predicate: the maximum is taken over the whole table of the bucket
+				// no ledger predicate: the maximum is taken over the whole table of the bucket. For the statement
+				// audit of C19 this is a read of a bucket table without its ledger predicate, on behalf of the
+				// ledger that owns the sequence
+				owner := ""
+				for _, k := range c.sess.scan("ledger", "") {
+					if l, _ := c.sess.get(k).(*LedgerRow); l != nil && l.Bucket == bucket && strings.HasSuffix(seq, fmt.Sprintf("_%d\"", l.ID)) {
+						owner = l.Name
+					}
+				}
+				unscopedOwner = owner
 				for _, k := range c.sess.scan("ledger", "") {
 					if l, _ := c.sess.get(k).(*LedgerRow); l != nil && l.Bucket == bucket {
 						ledgers = append(ledgers, l.Name)
